@@ -179,13 +179,24 @@ Variable store : ident -> lookup.    (* Server.get_authkey for a synchronous sto
 Variable async_store : bool.         (* get_authkey returns an awaitable; LookupDone carries the result *)
 
 (* ---- Connection.* -------------------------------------------------------------------------- *)
+(* authenticate(): a connection that authenticates again under ANOTHER identity keeps its subscriptions; from then
+   on they are counted under the new identity (SUBSCRIPTIONS.labels(old, chan).dec(); .labels(new, chan).inc()) *)
+Definition regauge_g (q : nat) (i : ident) (s : state) : list (ident * chan * Z) :=
+  match ak (conns s q) with
+  | Some old =>
+      if bytes_eqb old i then g_subs s
+      else fold_left (fun g c => gadd (i, c) 1 (gadd (old, c) (-1) g)) (active (conns s q)) (g_subs s)
+  | None => g_subs s
+  end.
+Definition regauge (q : nat) (i : ident) (s : state) : state := set_g_subs (regauge_g q i s) s.
+
 Definition authenticate (k : state -> res) (q : nat) (i : ident) (dg : bytes) (l : lookup) (s : state) : res :=
   match l with
   | LNone => Ok (bad q s)
   | LRow r =>
       if bytes_eqb (sha1 (nonce (conns s q) ++ r_secret r)) dg then
         let s1 := logA (AAuth q i r dg)
-                    (modc q (fun c => set_subchans (r_sub r) (set_pubchans (r_pub r) (set_ak (Some i) c))) s) in
+                    (modc q (fun c => set_subchans (r_sub r) (set_pubchans (r_pub r) (set_ak (Some i) c))) (regauge q i s)) in
         match k s1 with                      (* self.process_pending() *)
         | Ok s2 => Ok (match pending (conns s2 q) with      (* if not self._lookups_pending: *)
                        | [] => resume_r q s2                (*     self.transport.resume_reading() *)
